@@ -62,7 +62,9 @@
   `b.size ≤ 65535` (the sentence "after ANY legitimate call" does too); `sig_never_panics_any_verdict_schedule` speaks about
   SOME buffer of the schedule (`∃ b ∈ l`) — the older `sig_never_panics` / schedule forms name the buffer of the completing
   call and bound `bufLen` by it; for MoreBytes and error verdicts the statement follows from the two-line guard alone
-  (msg_sig.go:206-212), its content is the missing-Content-Length case plus `verdict_state_relation`.
+  (msg_sig.go:206-212), its content is the missing-Content-Length case plus `verdict_state_relation`. STRENGTHENED
+  afterwards (`Sipsp.Proofs.AuditFixC`): `sig_never_panics_last(_from)` — on the LAST buffer `B` of the schedule and on
+  every extension of it GetMsgSig does not panic and gives the same result, with `bufLen ≤ B.size` in the completed states.
 -/
 import Sipsp.Proofs.ProgressNA
 import Sipsp.Proofs.SafeMsg
@@ -72,6 +74,7 @@ import Sipsp.Proofs.SigCompose
 import Sipsp.Proofs.AuditFixA
 import Sipsp.Proofs.SigGuard
 import Sipsp.Proofs.SigGuardSafe
+import Sipsp.Proofs.AuditFixC
 
 namespace Sipsp.C04
 open Sipsp
@@ -489,5 +492,17 @@ theorem call_on_finished_object : type_of% @Sipsp.sg_terminal_call := @Sipsp.sg_
 /-- **(2) the core is safe in the `noCLen` end state**: after a legitimate call that answered "Content-Length required
     but missing" the body of GetMsgSig behind its guard does not panic -/
 theorem sig_core_safe_after_noclen : type_of% @Sipsp.sg_core_safe_noCLen := @Sipsp.sg_core_safe_noCLen
+
+/-! ### GetMsgSig after any schedule, on the LAST buffer of the schedule and every extension of it (proved in `Sipsp.Proofs.AuditFixC`) -/
+
+/-- **[C04] every chunk schedule from Init, whatever verdict the chain ends with (OK, MoreBytes, NoCLen, any error),
+    stated on the last buffer `B` of the schedule** (`l.getLast? = some B`): GetMsgSig on the final object does not
+    panic against `B`, nor against any extension of `B`, with the same result; in the completed states
+    `len(msg.Buf) ≤ len(B)` -/
+theorem sig_never_panics_last : type_of% @Sipsp.afc_sig_never_panics_last := @Sipsp.afc_sig_never_panics_last
+
+/-- **[C04] every chunk schedule from any legitimate object, whatever verdict the chain ends with, stated on the last
+    buffer `B` of the schedule** -/
+theorem sig_never_panics_last_from : type_of% @Sipsp.afc_sig_never_panics_last_from := @Sipsp.afc_sig_never_panics_last_from
 
 end Sipsp.C04
